@@ -49,6 +49,8 @@ TRUSTED = [
     'a raw sqlite3 connection executing BEGIN IMMEDIATE stands for "another client holds the write lock"; SQLite busy handling with timeout 0',
     'the explicit operation table OPS of harness/props/c14.py is the list of public data operations (administrative calls -- check, stats, reset, '
     'create/drop_tag_index, volume, close -- are not data operations)',
+    'threads sharing one object: the deterministic scheduler of harness/sched.py (one traced statement / file operation at a time, also right after '
+    'BEGIN / COMMIT / ROLLBACK) and the reference + linearizability search of harness/props/c05.py / c06.py (a block is one atomic step)',
 ]
 ASSUMPTIONS = [
     'clock frozen during a call; size_limit out of reach',
@@ -615,6 +617,121 @@ def correspondence(ctx, res, case_records):
                                               'correspondence'))
 
 
+# ---------------------------------------------------------------------------
+# threads sharing ONE object: the lock holder is another thread of the same Cache / FanoutCache inside transact()
+
+
+SHARED_SETTINGS = {'disk_min_file_size': 8}
+FAIL_VALUE = {'set': False, 'add': False, 'delete': False, 'touch': False, 'incr': None, 'decr': None, 'pop': concdrv.MISS}
+
+
+def shared_cases():
+    """(label, kind, programs, setup).  Thread 0 is inside `with obj.transact():` popping and replacing file-backed values and storing
+    a new one, and commits or aborts; thread 1 issues one or two calls that need the write lock, giving up at once (retry False)
+    or spinning (retry True)."""
+    setup = [{'op': 'set', 'key': 'popped', 'value': BIG}, {'op': 'set', 'key': 'replaced', 'value': BIG}, {'op': 'set', 'key': 'k2', 'value': BIG2},
+             {'op': 'set', 'key': 'n', 'value': 10}]
+    body = [{'op': 'pop', 'key': 'popped'}, {'op': 'set', 'key': 'replaced', 'value': 'small'}, {'op': 'set', 'key': 'created', 'value': BIG2},
+            {'op': 'delete', 'key': 'n'}]
+    others = [('set-file', [{'op': 'set', 'key': 'other', 'value': BIG}]),
+              ('set-inline+add-file', [{'op': 'set', 'key': 'other', 'value': 1}, {'op': 'add', 'key': 'other2', 'value': BIG}]),
+              ('set-replace-file', [{'op': 'set', 'key': 'k2', 'value': BIG}]),
+              ('pop-file', [{'op': 'pop', 'key': 'k2'}]),
+              ('delete-file+incr', [{'op': 'delete', 'key': 'k2'}, {'op': 'incr', 'key': 'm'}])]
+    out = []
+    for kind in ('cache', 'fanout'):
+        for end in ('commit', 'abort'):
+            a = [{'op': 'begin_block'}] + body + ([{'op': 'raise_in_block'}] if end == 'abort' else []) + [{'op': 'end_block'}]
+            for oname, b in others:
+                for retry in (False, True):
+                    out.append(('%s:block-%s || %s retry=%s' % (kind, end, oname, retry), kind, [a, [dict(c, retry=retry) for c in b]], setup))
+    return out
+
+
+def shared_run(ctx, kind, programs, setup, schedule):
+    """One schedule of two threads sharing one object.  Returns (problems, run_program result, number of calls that gave up)."""
+    from props import c06
+    r = concdrv.run_program(ctx, programs, schedule, mode='shared', settings=SHARED_SETTINGS, setup=setup, kind=kind, shards=2, max_steps=8000,
+                            sleep_advances=False)
+    problems = []
+    gave_up = 0
+    if r['overflow']:
+        return [('shared_timeout:never_returns', 'the run did not terminate within the step budget')], r, 0
+    for recs in r['calls'][1:]:
+        for rec in recs:
+            evs = rec.get('events', [])
+            failed = 'sql:BEGIN' in evs and 'sql:COMMIT' not in evs and 'sql:ROLLBACK' not in evs
+            if rec.get('exc') == 'Timeout':
+                gave_up += 1
+                if kind == 'fanout':
+                    problems.append(('sharded_raises_timeout', 'FanoutCache.%s raised Timeout' % rec['op']))
+                elif rec['call'].get('retry'):
+                    problems.append(('shared_timeout:retry_raised', 'Cache.%s(retry=True) raised Timeout' % rec['op']))
+            elif failed and not rec.get('exc'):
+                # no transaction of this call committed: it could not obtain the lock
+                gave_up += 1
+                want = FAIL_VALUE.get(rec['op'])
+                if kind != 'fanout' or rec['call'].get('retry'):
+                    problems.append(('shared_timeout:no_timeout', '%s.%s(retry=%s) never got the write lock but returned %r' % (kind, rec['op'], rec['call'].get('retry'), rec.get('result'))))
+                elif rec.get('result') != want or type(rec.get('result')) is not type(want):
+                    problems.append(('sharded_timeout_result', 'FanoutCache.%s returned %r on a lock timeout, expected %r' % (rec['op'], rec.get('result'), want)))
+                rec['exc'] = 'Timeout'          # for the reference: the call reports that it did nothing
+                rec.pop('result', None)
+    if problems:
+        return problems, r, gave_up
+    case = {'kind': kind, 'mode': 'shared', 'programs': programs, 'setup': setup, 'shards': 2}
+    for sig, text in c06.check_run(r, case, c06.new_stats()):
+        if sig in c06.EXPECTED_SIGS:
+            continue
+        problems.append(('shared_timeout:' + sig, text))
+    if not problems:
+        with instr.Installed(r['clock']):
+            snap = concdrv.api_snapshot(r['dir'], kind, shards=2, with_check=True)
+        if snap['check']:
+            problems.append(('shared_timeout:check_warns', 'check() reports %r' % snap['check'][:2]))
+    return problems, r, gave_up
+
+
+def shared_object_timeouts(ctx, res, stats, thorough):
+    """"An operation that cannot obtain the write lock has no effect and leaves no value file behind" when the lock is held by ANOTHER
+    THREAD OF THE SAME OBJECT inside transact().  Schedules: thread 0 runs i events (i over every position of its block), thread 1
+    then runs k events (its calls give up at once, or spin k times), thread 0 finishes, thread 1 finishes.  Afterwards the results and the
+    final contents must be explained by the block as one atomic step plus the calls that did NOT time out (reference of C05/C06), counters,
+    rows and value files agree, and check() is silent."""
+    seen = set()
+    st = {'runs': 0, 'calls_that_gave_up': 0, 'runs_with_failed_begin': 0}
+    for ci, (label, kind, programs, setup) in enumerate(shared_cases()):
+        seqs = concdrv.solo_events(ctx, programs, settings=SHARED_SETTINGS, setup=setup, kind=kind, mode='shared', shards=2)
+        na = len(seqs[0])
+        retry = programs[1][0].get('retry')
+        step = 1 if thorough else (2 if kind == 'cache' else 4)
+        off = 0 if thorough else (ci + ctx.seed) % step
+        for i in range(off, na + 1, step):
+            for k in ((40,) if not retry else (7, 25) if thorough else (7 if (i // step) % 2 else 25,)):
+                schedule = [0] * i + [1] * k + [0] * 600 + [1] * 600
+                problems, r, gave_up = shared_run(ctx, kind, programs, setup, schedule)
+                st['runs'] += 1
+                st['calls_that_gave_up'] += gave_up
+                st['runs_with_failed_begin'] += int(r['begin_failures'] > 0)
+                stats['cases'] += 1
+                stats['by_lock']['other_thread_in_transact'] = stats['by_lock'].get('other_thread_in_transact', 0) + 1
+                res.count(['shared', label, r['schedule_used']], nontrivial=r['begin_failures'] > 0)
+                shutil.rmtree(r['dir'], ignore_errors=True)
+                for sig, text in problems[:2]:
+                    if sig in seen:
+                        continue
+                    seen.add(sig)
+                    res.violations.append(fw.Violation(sig, '%s [two threads sharing one %s; %s; thread 1 placed after %d of thread 0\'s %d events]' % (
+                        text, 'Cache' if kind == 'cache' else 'FanoutCache(shards=2)', label, i, na),
+                        {'check': 'shared_lock', 'kind': kind, 'label': label, 'programs': programs, 'setup': setup, 'schedule': r['schedule_used']}))
+                    stats['by_sig'][sig] = stats['by_sig'].get(sig, 0) + 1
+            if len(seen) >= 3:
+                break
+        if len(seen) >= 3:
+            break
+    return st
+
+
 def run(ctx, big=False):
     res = fw.Result()
     del CASE_RECORDS[:]
@@ -623,7 +740,11 @@ def run(ctx, big=False):
                 'the first BEGIN i.e. between the value-file write and the transaction, released after 1 / 3 failed BEGIN attempts, taken between '
                 'two pages of a bulk removal, held for 300 attempts}; expectations from the property text, results/contents of waiting calls from '
                 'an uncontended twin.  quick omits LRU for the writing operations of FanoutCache/DjangoCache.  non-trivial = the operation needed '
-                'the lock while it was held, or was a lookup executed while it was held; distinct = distinct case tuple.')
+                'the lock while it was held, or was a lookup executed while it was held; distinct = distinct case tuple.  Lock held by ANOTHER THREAD '
+                'OF THE SAME OBJECT: two threads share one Cache / FanoutCache(shards=2); thread 0 is inside transact() popping, replacing, deleting and '
+                'creating file-backed values and commits or aborts; thread 1\'s set / add / pop / delete / incr (inline and file-backed, retry False = gives '
+                'up, retry True = spins) are placed after every i-th event of thread 0 (quick: every 2nd / 4th); afterwards results and contents are those '
+                'of the block as one step plus the calls that did not time out, counters / rows / value files agree and check() is silent.')
     stats = new_stats()
     twins = {}
     thorough = (not ctx.quick) or big
@@ -659,6 +780,8 @@ def run(ctx, big=False):
                 res.sample({'case': case, 'result': r, 'begin_attempts': info['begins'], 'events': info['events'][:40]})
         if len([v for v in res.violations if v.sig not in EXPECTED_SIGS and v.sig not in fw.load_known(ID)[0]]) >= 6:
             break
+    if len([v for v in res.violations if v.sig not in EXPECTED_SIGS and v.sig not in fw.load_known(ID)[0]]) < 6:
+        res.extra['lock_held_by_another_thread_of_the_same_object'] = shared_object_timeouts(ctx, res, stats, not ctx.quick)
     if not res.samples:
         res.sample({'note': 'see cases_by_lock_scenario'})
     res.extra.update({'operations_in_table': len(OPS), 'operations_by_family': {f: len([o for o in OPS if o['fam'] == f]) for f in ('cache', 'fanout', 'django', 'deque', 'index')},
@@ -681,6 +804,17 @@ def search(ctx, broken):
 
 def replay(payload):
     case = payload.get('case', {})
+    if case.get('check') == 'shared_lock':
+        ctx = fw.Ctx('C14', 'quick', 1)
+        try:
+            problems, r, gave_up = shared_run(ctx, case['kind'], case['programs'], case['setup'], case['schedule'])
+            print('two threads sharing one %s: %s' % (case['kind'], case['label']))
+            print('log:', ' '.join('%d:%s' % (c, w) for c, w, _ in r['log']))
+            print('results:', [[rec['client'], rec['op'], rec.get('result', rec.get('exc'))] for recs in r['calls'] for rec in recs if not rec.get('skipped')])
+            print('monitor:', problems)
+            return not problems
+        finally:
+            ctx.cleanup()
     if case.get('check') != 'lock':
         print(payload)
         return True
